@@ -7,7 +7,6 @@ import (
 	"math"
 	"math/big"
 	"strconv"
-	"strings"
 
 	"github.com/theory/sqljson/path/ast"
 	"github.com/theory/sqljson/path/types"
@@ -474,6 +473,28 @@ func (exec *Executor) execMethodBoolean(
 //   - off
 //   - 1
 //   - 0
+//
+// equalFoldASCII reports whether s equals the lower-case ASCII word when only
+// ASCII letters are folded. strings.EqualFold also folds U+017F (long s) to s
+// and U+212A (Kelvin sign) to k, which made "ye\u017f" a boolean.
+func equalFoldASCII(s, word string) bool {
+	if len(s) != len(word) {
+		return false
+	}
+
+	for i := range len(s) {
+		c := s[i]
+		if 'A' <= c && c <= 'Z' {
+			c += 'a' - 'A'
+		}
+		if c != word[i] {
+			return false
+		}
+	}
+
+	return true
+}
+
 func execBooleanString(val string, name ast.MethodName) (bool, error) {
 	size := len(val)
 	if size == 0 {
@@ -485,25 +506,25 @@ func execBooleanString(val string, name ast.MethodName) (bool, error) {
 
 	switch val[0] {
 	case 't', 'T':
-		if size == 1 || strings.EqualFold(val, "true") {
+		if size == 1 || equalFoldASCII(val, "true") {
 			return true, nil
 		}
 	case 'f', 'F':
-		if size == 1 || strings.EqualFold(val, "false") {
+		if size == 1 || equalFoldASCII(val, "false") {
 			return false, nil
 		}
 	case 'y', 'Y':
-		if size == 1 || strings.EqualFold(val, "yes") {
+		if size == 1 || equalFoldASCII(val, "yes") {
 			return true, nil
 		}
 	case 'n', 'N':
-		if size == 1 || strings.EqualFold(val, "no") {
+		if size == 1 || equalFoldASCII(val, "no") {
 			return false, nil
 		}
 	case 'o', 'O':
-		if strings.EqualFold(val, "on") {
+		if equalFoldASCII(val, "on") {
 			return true, nil
-		} else if strings.EqualFold(val, "off") {
+		} else if equalFoldASCII(val, "off") {
 			return false, nil
 		}
 	case '1':
